@@ -299,7 +299,29 @@ pub fn script_text(cmds: &[Cmd], aliases: &[u8], kept: usize, observe: bool, ter
     out
 }
 
+/// The script through `--command` only (for checks that account for every byte of standard input).
+pub fn run_lace_arg(p: &Prog, script: &str, input: &[u8], fuel: u64) -> Session {
+    lacebox::run_session(
+        Load::Source { text: p.text.clone(), debugger: Some(Some(script.to_string())) },
+        RunSpec { stack: p.built.stack, minimal: true, fuel, input: input.to_vec() },
+    )
+}
+
 pub fn run_lace(p: &Prog, script: &str, input: &[u8], fuel: u64) -> Session {
+    // a third of the sessions that give the program no input receive their script on standard
+    // input (read line by line into the reader's buffer) instead of through `--command` (slices of
+    // one string): the two transports mean the same (C14), so every debugger property is exercised
+    // over both
+    // (only for programs without an input trap: program and debugger share standard input)
+    let reads_input = p.img.words.iter().any(|w| matches!(*w, 0xF020 | 0xF023));
+    if input.is_empty() && !reads_input && crate::engine::hash_of(&(script, "transport")) % 3 == 0 && !script.contains('\0') {
+        let mut stdin = script.as_bytes().to_vec();
+        stdin.push(b'\n');
+        return lacebox::run_session(
+            Load::Source { text: p.text.clone(), debugger: Some(None) },
+            RunSpec { stack: p.built.stack, minimal: true, fuel, input: stdin },
+        );
+    }
     lacebox::run_session(
         Load::Source { text: p.text.clone(), debugger: Some(Some(script.to_string())) },
         RunSpec { stack: p.built.stack, minimal: true, fuel, input: input.to_vec() },
